@@ -258,6 +258,36 @@ fn lincomb_boxed(cx: &mut Cx, iters: usize) {
     }
 }
 
+/// The accumulation limit of the interleaved sum of products is 2^leading_zeros terms per window.  Directed family:
+/// modulus 2^(BITS - lz) - d (d small, odd result), term counts around the limit (2^lz - 1 .. 2^(lz+1)), every
+/// representative equal to m - 1 (maximal products), so that one term too many in a window overflows the accumulator.
+fn lincomb_window_limit(cx: &mut Cx) {
+    for n in [1usize, 2, 4] {
+        for lz in 1usize..=5 {
+            let m = { let mut v = vsub(&vpow2(64 * n - lz), &[1 + 2 * cx.rng.below(4) as u64]); v[0] |= 1; fit(v, n) };
+            let top = vsub(&m, &[1]);
+            for terms in [(1usize << lz) - 1, 1 << lz, (1 << lz) + 1, (3 << lz) / 2, (1 << (lz + 1)) - 1, 1 << (lz + 1), (1 << (lz + 1)) + 1] {
+                if terms == 0 || terms > 70 { continue; }
+                let xs: Vec<Vec<u64>> = (0..terms).map(|_| top.clone()).collect();
+                let ev = |form: &str| Ev::new("lincomb", form).i("bits", 64 * n as i64).n("m", &m).nl("xs", &xs).nl("ys", &xs);
+                {
+                    let params = BoxedMontyParams::new_vartime(oddb(&m).unwrap());
+                    let f: Vec<BoxedMontyForm> = (0..terms).map(|_| BoxedMontyForm::new(bx(&top), params.clone())).collect();
+                    let pairs: Vec<(&BoxedMontyForm, &BoxedMontyForm)> = f.iter().zip(f.iter()).collect();
+                    cx.call(ev("BoxedMontyForm.lincomb_vartime"), || { let r = BoxedMontyForm::lincomb_vartime(&pairs); O::ok().n("rt", &wb(&r.retrieve())).n("mf", &wb(r.as_montgomery())) });
+                }
+                macro_rules! fixed { ($N:literal) => {{
+                    let params = MontyParams::<$N>::new_vartime(odd::<$N>(&m).unwrap());
+                    let f: Vec<MontyForm<$N>> = (0..terms).map(|_| MontyForm::new(&u::<$N>(&top), params)).collect();
+                    let pairs: Vec<(&MontyForm<$N>, &MontyForm<$N>)> = f.iter().zip(f.iter()).collect();
+                    cx.call(ev("MontyForm.lincomb_vartime"), || { let r = MontyForm::<$N>::lincomb_vartime(&pairs); O::ok().n("rt", &w(&r.retrieve())).n("mf", &w(r.as_montgomery())) });
+                }}; }
+                match n { 1 => fixed!(1), 2 => fixed!(2), _ => fixed!(4) }
+            }
+        }
+    }
+}
+
 fn main() {
     let mut cx = Cx::from_args("C09");
     let s = cx.scale;
@@ -274,6 +304,7 @@ fn main() {
         pow_dyn::<16, 2>(&mut cx, 3 * s, false);
     }
     if cx.want("powboxed") { pow_boxed(&mut cx, 70 * s); }
+    if cx.want("lincomblimit") { lincomb_window_limit(&mut cx); }
     if cx.want("powvolume") { pow_boxed_double_reduction(&mut cx, 40_000 * s.min(5)); }
     if cx.want("const") {
         pow_const!(cx, C64Three, 1, 1, 8 * s, true);
